@@ -267,10 +267,13 @@ impl<'a, A> DataPointBuilder for SumPoints<'a, A> {
 
     fn push_point_i64(&mut self, value: i64) {
         self.0.value = match self.0.value {
+            // If the sum overflows an integer then carry on as a double
             NumberDataPointValue::AsInt(AsInt(current)) => current
                 .checked_add(value)
                 .map(|value| NumberDataPointValue::AsInt(AsInt(value)))
-                .unwrap_or(NumberDataPointValue::AsDouble(AsDouble(f64::INFINITY))),
+                .unwrap_or(NumberDataPointValue::AsDouble(AsDouble(
+                    current as f64 + value as f64,
+                ))),
             NumberDataPointValue::AsDouble(AsDouble(current)) => {
                 NumberDataPointValue::AsDouble(AsDouble(current + value as f64))
             }
